@@ -148,3 +148,41 @@ func H_C19_http() {
 	vAssert("ok:bursts-as-posted", vAnd(s.ulBurstBytes == ns.SliceQos.UlBurstBytes, s.dlBurstBytes == ns.SliceQos.DlBurstBytes))
 	vAssert("ok:remembered", u.sliceInfo != nil)
 }
+
+// H_C19_bess: the BESS slice meter programmed from a SliceInfo.
+func H_C19_bess() {
+	env := vNewBess()
+	si := &SliceInfo{name: "s", uplinkMbr: vU64("ul_rate"), downlinkMbr: vU64("dl_rate"), ulBurstBytes: vU64("ul_burst"), dlBurstBytes: vU64("dl_burst")}
+	err := env.b.AddSliceInfo(si)
+	vAssert("no-error", err == nil)
+	es := env.srv.qos["sliceMeter"]
+	vObserve("slice", len(es))
+	// both halves are keyed by their own (action, tunnel type) fields; the
+	// in-harness module keeps one entry per distinct key
+	vAssert("slice-meter-programmed", len(es) >= 1 && len(env.srv.cmds) == 2)
+	last := es[len(es)-1] // downlink (N3) half is sent second
+	vAssert("downlink-peak-rate-is-rate/8", vImplies(si.downlinkMbr != 0, vAnd(last.pir == si.downlinkMbr/8, last.gate == sliceMeterGateMeter)))
+	vAssert("downlink-zero-rate-unmetered", vImplies(si.downlinkMbr == 0, last.gate == sliceMeterGateUnmeter))
+	vAssert("downlink-burst-as-posted-or-default", last.pbs == vIteU64(si.dlBurstBytes != 0, si.dlBurstBytes, DefaultBurstSize))
+	vCover("bess-slice")
+}
+
+// H_C19_up4: the UP4 slice/TC meter cell programmed from a SliceInfo.
+func H_C19_up4() {
+	slice, tc := vU8("slice_id"), vU8("default_tc")
+	vAssume(slice <= 15)
+	vAssume(tc <= 3)
+	st := vNewUP4(8, slice, tc, nil)
+	st.srv.logOnly = true
+	si := &SliceInfo{name: "s", uplinkMbr: vU64("ul_rate") & (1<<63 - 1), downlinkMbr: vU64("dl_rate") & (1<<63 - 1), ulBurstBytes: vU64("ul_burst") & (1<<63 - 1), dlBurstBytes: vU64("dl_burst") & (1<<63 - 1)}
+	err := st.up4.AddSliceInfo(si)
+	vAssert("no-error", err == nil)
+	vAssert("one-meter-write", len(st.srv.log) == 1)
+	me := st.srv.log[0].Entity.GetMeterEntry()
+	vAssert("is-meter-entry", me != nil && me.Config != nil && me.Index != nil)
+	vAssert("cell-is-slice*4+tc", me.Index.Index == int64(slice)*4+int64(tc))
+	ulWins := si.uplinkMbr > si.downlinkMbr
+	vAssert("rate-is-max-of-ul-and-dl", uint64(me.Config.Pir) == vIteU64(ulWins, si.uplinkMbr, si.downlinkMbr))
+	vAssert("burst-goes-with-the-winning-direction", uint64(me.Config.Pburst) == vIteU64(ulWins, si.ulBurstBytes, si.dlBurstBytes))
+	vCover("up4-slice")
+}
